@@ -449,7 +449,19 @@ theorem db_floats (db : DB) (hdb : dbOfRoles roles = some db) :
   simp only [rel_floats R.rel, List.map_map]
   rfl
 
+theorem db_plain (db : DB) (hdb : dbOfRoles roles = some db) : ∀ c ∈ db.ctors, c.body = none := by
+  have hwf := roles_wf S R
+  obtain ⟨imp, p1, p2, mp, _, _, _, _, hdbeq⟩ := dbOfRoles_some roles db hdb
+  have e3 : db.ctors = roles.filterMap ctorOf? := by rw [hdbeq]
+  intro c hc
+  rw [e3] at hc
+  obtain ⟨r, hr, hx⟩ := List.mem_filterMap.mp hc
+  have := hwf r hr
+  cases r <;> simp [ctorOf?] at hx
+  subst hx; exact this.2.2
+
 theorem db_wf (db : DB) (hdb : dbOfRoles roles = some db) : db.wf = true := by
+  have hpl := db_plain S R db hdb
   have hfl := db_floats S R db hdb
   have hwf := roles_wf S R
   rw [← hfl] at hwf
@@ -489,7 +501,7 @@ theorem db_wf (db : DB) (hdb : dbOfRoles roles = some db) : db.wf = true := by
     obtain ⟨r, hr, hx⟩ := List.mem_filterMap.mp hc
     have := hwf r hr
     cases r <;> simp [ctorOf?] at hx
-    subst hx; exact this
+    subst hx; exact ⟨this.1, this.2.1⟩
   have wru : ∀ c ∈ roles.filterMap ruleOf?, ∀ v ∈ Term.varsList (c.hyps ++ [c.concl]), v ∈ db.floats := by
     intro c hc
     obtain ⟨r, hr, hx⟩ := List.mem_filterMap.mp hc
@@ -504,6 +516,8 @@ theorem db_wf (db : DB) (hdb : dbOfRoles roles = some db) : db.wf = true := by
   have e6 : db.p2 = p2 := by rw [hdbeq]
   have e7 : db.mp = mp := by rw [hdbeq]
   unfold DB.wf
+  rw [DB.notOk_plain db hpl, Bool.and_true]
+  unfold DB.wf0
   rw [e1, e2, e3, e4, e5, e6, e7]
   simp only [Bool.and_eq_true, decide_eq_true_eq, List.all_eq_true, List.contains_eq_mem]
   refine ⟨⟨⟨⟨⟨⟨⟨hnd, ?_⟩, ?_⟩, ?_⟩, ?_⟩, ?_⟩, ?_⟩, ?_⟩
@@ -531,10 +545,12 @@ theorem float_entry (l v : String) (h : (l, v) ∈ floatsOf mdb) :
 
 theorem floats_coherent (db : DB) (hdb : dbOfRoles roles = some db) (goal : MM.Term) (labels : List Lbl) (steps : List Nat) :
     coherentFloats ⟨namesOf mdb, roles, db, tableOf roles 0 0, goal, labels, steps⟩ mdb = true := by
-  simp only [coherentFloats, Bool.and_eq_true, List.all_eq_true, decide_eq_true_eq, List.contains_eq_mem, ← floatsOf_eq]
-  refine ⟨?_, db_floats S R db hdb⟩
-  intro p hp
-  exact ⟨fs_declared S p.2 (List.mem_map.mpr ⟨p, hp, rfl⟩), float_entry S R p.1 p.2 hp⟩
+  simp only [coherentFloats, coherentFloats0, Bool.and_eq_true, List.all_eq_true, decide_eq_true_eq, List.contains_eq_mem, ← floatsOf_eq]
+  refine ⟨⟨?_, db_floats S R db hdb⟩, ?_⟩
+  · intro p hp
+    exact ⟨fs_declared S p.2 (List.mem_map.mpr ⟨p, hp, rfl⟩), float_entry S R p.1 p.2 hp⟩
+  · intro c hc
+    simp [db_plain S R db hdb c hc]
 
 /-- every `$a` statement: the label table gives its label the `Lbl` of the right kind, whose assertion is the statement's content -/
 theorem item_coherent (db : DB) (hdb : dbOfRoles roles = some db) (goal : MM.Term) (labels : List Lbl) (steps : List Nat)
@@ -812,7 +828,7 @@ theorem floatLabel_found (v : String) (hv : v ∈ (floatsOf mdb).map (·.2)) :
 theorem mand_eq (db : DB) (hdb : dbOfRoles roles = some db) (t : MTerm) (T : MM.Term) (hT : termOf (namesOf mdb) t = some T) :
     (db.mandOf [T]).mapM (floatLabel roles) =
       some ((((floatsOf mdb).map (·.2)).filter fun v => (termMvs t).contains v).map (· ++ "-is-pattern")) := by
-  have hnum : Numbering (namesOf mdb) ((floatsOf mdb).map (·.2)) db := ⟨fs_declared S, db_floats S R db hdb⟩
+  have hnum : Numbering (namesOf mdb) ((floatsOf mdb).map (·.2)) db := ⟨fs_declared S, db_floats S R db hdb, db_plain S R db hdb⟩
   have := mandOf_eq (namesOf mdb) _ db hnum [t] [T] (by simp [termsOf, hT])
   simp only [termsMvs, List.append_nil] at this
   rw [this]
